@@ -86,12 +86,12 @@ tcallv(const char *name, void *fn, int n, const uint64_t *v)
         int i = 0;
         for (; i < n && i < 6; i++)
                 p.args[i] = v[i];
-        for (; i < n; i++)
-                p.stack_args[p.nstack++] = v[i];
-        if (p.nstack > 16) {
+        if (n > 6 + 32) {
                 fprintf(stderr, "tcallv: too many args\n");
                 abort();
         }
+        for (; i < n; i++)
+                p.stack_args[p.nstack++] = v[i];
         uint64_t nonce = ++g_calls_total;
         uint64_t s = nonce * 0x9E3779B97F4A7C15ull ^ 0xC0FFEE1234567ull;
         for (int k = 0; k < 6; k++)
